@@ -22,6 +22,13 @@ INSTANCES = {
     "c11_error_tail_9": (HDR + "error E", 9, "", "an error's parameters", Q, "lang"),
     "c11_second_member_12": (HDR + "type T()\n", 12, "", "a second member", Q, "lang"),
     "c11_second_member_15": (HDR + "type T()\n", 15, "", "a second member", T, "lang"),
+    # deepest bounds (minutes each)
+    "c11_name_16": ("interface ", 16, M, "the interface name and what separates it from the first member", T, "lang"),
+    "c11_member_19": (HDR, 19, "", "a whole member list after the header", T, "lang"),
+    "c11_member_tail_15": (HDR + "type T", 15, "", "a typedef's body and what may follow it", T, "lang"),
+    "c11_method_tail_16": (HDR + "method M", 16, "", "a method's signature", T, "lang"),
+    "c11_type_14": (HDR + "type T(a:", 14, ")", "a type expression", T, "lang"),
+    "c11_type_enum_13": (HDR + "type T(a", 13, ")", "the rest of a struct or enum after its first name", T, "lang"),
     # type expressions
     "c11_type_8": (HDR + "type T(a:", 8, ")", "a type expression", Q, "lang"),
     "c11_type_11": (HDR + "type T(a:", 11, ")", "a type expression", T, "lang"),
